@@ -26,6 +26,12 @@ out.append("* Harnesses (Go lines): " + ", ".join("%s %d" % kv for kv in loc.ite
 out.append("* /repo: %d hook commits (build tag `verif`, add-only), %d `fix:` commits (each a genuine defect found by a check on the unchanged tree; the repo's test suite passes with them, tag off)." % (len(hooks), len(fixes)))
 out.append("* KNOWN_FINDINGS.txt: %d `fixed:` entries, %d `known:` entries (%s) - each printed as KNOWN-FINDING on the runs that meet it." % (len(fixed), len(known), ", ".join("%s %d" % kv for kv in sorted(byprop.items()))))
 out.append("* Seeded changes written by sub-agents that saw only the property text: %d verified, %d detected by a registered check within its quick/extended budget (table in 13.5)." % (len(metas), det))
+out.append("")
+out.append("| property | engines as registered (quick s / thorough s) | level claimed |")
+out.append("|---|---|---|")
+for pid in sorted(checks):
+    c = checks[pid]
+    out.append("| %s | %s | %s |" % (pid, ", ".join("%s (%s/%s)" % (e["harness"], e["quick_s"], e["thorough_s"]) for e in c["engines"]), c.get("level", "")))
 d = open(os.path.join(V, "DESIGN.md")).read()
 a, b = d.index("<!-- STATUS-BEGIN -->"), d.index("<!-- STATUS-END -->")
 d = d[:a] + "<!-- STATUS-BEGIN -->\n" + "\n".join(out) + "\n" + d[b:]
